@@ -430,14 +430,17 @@ pub fn run(report: &Report, thorough: bool) -> Evidence {
     // final file (which, for unreadable content, renders as with the file absent — checked above)
     let live_faults = AtomicU64::new(0);
     {
-        let states: Vec<Option<&[u8]>> = vec![None, Some(br#"{"as":"ash"}"#), Some(br#"{"as":"asOr","aser":"eser"}"#), Some(b""), Some(br#"{"as":"a"#), Some(b"[1,2]")];
+        let states: Vec<Option<&[u8]>> = vec![None, Some(br#"{"as":"ash"}"#), Some(br#"{"as":"asOr","aser":"eser"}"#), Some(b""), Some(br#"{"as":"a"#), Some(b"[1,2]"), Some(br#"{"as":"","aser":"`"}"#)];
         let mut seqs: Vec<Vec<usize>> = vec![];
         for a in 0..states.len() {
             seqs.push(vec![a]);
             for b in 0..states.len() {
                 seqs.push(vec![a, b]);
-                for c in 0..states.len() {
-                    seqs.push(vec![a, b, c]);
+                // (sequences of three over the first six states; the state added last takes part in the shorter ones)
+                for c in 0..6.min(states.len()) {
+                    if a < 6 && b < 6 {
+                        seqs.push(vec![a, b, c]);
+                    }
                 }
             }
         }
